@@ -228,6 +228,14 @@ def probe_mocking():
                 break
         sys.stdout = before["stdout"]
         time.sleep = before["sleep"]
+        # ... nor the module table (a tree whose nested start/stop does not restore would otherwise leave pedal's
+        # mocked / blocked modules in THIS process and break everything the check does afterwards)
+        for k in list(sys.modules):
+            if k not in before["modules"]:
+                del sys.modules[k]
+        for k, v in before["modules"].items():
+            if sys.modules.get(k) is not v:
+                sys.modules[k] = v
     return res
 
 
